@@ -77,6 +77,63 @@ theorem gate_substitution_faithful (c : CalDef) (g : Gate) (i : Instruction) (h 
     gateSubstCode c g i = gateSubstSpec c g i :=
   gateSubstCode_eq c g i h
 
+/- FULL STATEMENT (false of the code for nested definitions, see `nested_definition_counterexample`):
+     ∀ c g i, gateSubstCode c g i = gateSubstSpec c g i -/
+/-- **nested definitions admitted**: the same holds of a definition nested in the calibration body — DEFFRAME,
+DEFCAL, DEFCAL MEASURE, DEFGATE (matrix / permutation / PAULI-SUM / SEQUENCE), DEFCIRCUIT — provided the positions
+of it that the code's substitution does NOT visit (identifier qubits of a nested DEFFRAME / DEFCAL / DEFCAL
+MEASURE, PAULI-SUM term expressions, the gates of a SEQUENCE) mention none of the enclosing calibration's
+variables (`nestedOkB`, decidable).  Everything the parser can put into a calibration body (DECLARE, PRAGMA EXTERN,
+DEFWAVEFORM) is plain. -/
+theorem gate_substitution_faithful_partial (c : CalDef) (g : Gate) (i : Instruction)
+    (h : admitB (qubitVarNames c.identifier.qubits) (paramVarNames c.identifier.parameters) i = true) :
+    gateSubstCode c g i = gateSubstSpec c g i :=
+  gateSubstCode_eq_admit c g i h
+
+/-- `DEFCAL X q: DEFFRAME q "xy"` (an API-built body; the parser cannot nest a DEFFRAME) used for `X 0` -/
+def nestedCal : CalDef :=
+  { identifier := { modifiers := [], name := "X", parameters := [], qubits := [Qubit.variable "q"] }
+    instructions := [.frameDefinition ⟨⟨"xy", [Qubit.variable "q"]⟩, []⟩] }
+def nestedGate : Gate := { name := "X", parameters := [], qubits := [.fixed 0], modifiers := [] }
+
+/-- **why the excluded nested definitions must stay excluded**: the code leaves the qubit variable in the
+identifier of a nested DEFFRAME (`DEFFRAME q "xy"` stays as written, `substitute_qubit_variables` has no arm for
+it), the generic traversal instantiates it (`DEFFRAME 0 "xy"`).  Replayed on the real code by the harness
+(`api_shapes`, tag `excluded-nested-definition`). -/
+theorem nested_definition_counterexample :
+    gateSubstCode nestedCal nestedGate (.frameDefinition ⟨⟨"xy", [Qubit.variable "q"]⟩, []⟩)
+      = .frameDefinition ⟨⟨"xy", [Qubit.variable "q"]⟩, []⟩ ∧
+    gateSubstSpec nestedCal nestedGate (.frameDefinition ⟨⟨"xy", [Qubit.variable "q"]⟩, []⟩)
+      = .frameDefinition ⟨⟨"xy", [.fixed 0]⟩, []⟩ ∧
+    nestedOkB (qubitVarNames nestedCal.identifier.qubits) (paramVarNames nestedCal.identifier.parameters)
+      (.frameDefinition ⟨⟨"xy", [Qubit.variable "q"]⟩, []⟩) = false := by
+  refine ⟨?_, ?_, ?_⟩
+  · simp [gateSubstCode, nestedCal, nestedGate, substituteQubitVariables, applyToExpressions]
+  · simp [gateSubstSpec, nestedCal, nestedGate, mapQubits, mapExprs, mapFrameQ, substQ, bindQ]
+  · simp [nestedOkB, nestedCal, qubitVarNames, qubitFree]
+
+/-- `DEFGATE G(%t) p AS PAULI-SUM: X(%t) p` nested in `DEFCAL RX(%t) 0`, used for `RX(0.5) 0` -/
+def nestedPauli : Instruction :=
+  .gateDefinition ⟨"G", ["t"], .pauliSum ⟨["p"], [⟨[(.x, "p")], .var "t"⟩]⟩⟩
+def nestedPauliCal : CalDef :=
+  { identifier := { modifiers := [], name := "RX", parameters := [.var "t"], qubits := [.fixed 0] }
+    instructions := [nestedPauli] }
+def nestedPauliGate : Gate :=
+  { name := "RX", parameters := [.number ⟨0x3FE0000000000000, 0⟩], qubits := [.fixed 0], modifiers := [] }
+
+/-- the expression side of the exclusion: `apply_to_expressions` does not enter a PAULI-SUM specification, the
+generic traversal does (and would capture the definition's own formal parameter) -/
+theorem nested_paulisum_counterexample :
+    gateSubstCode nestedPauliCal nestedPauliGate nestedPauli = nestedPauli ∧
+    gateSubstSpec nestedPauliCal nestedPauliGate nestedPauli ≠ nestedPauli ∧
+    nestedOkB (qubitVarNames nestedPauliCal.identifier.qubits)
+      (paramVarNames nestedPauliCal.identifier.parameters) nestedPauli = false := by
+  refine ⟨?_, ?_, ?_⟩
+  · simp [gateSubstCode, nestedPauli, substituteQubitVariables, applyToExpressions]
+  · simp [gateSubstSpec, nestedPauli, nestedPauliCal, nestedPauliGate, mapQubits, mapExprs, mapSpecE, bindP,
+      QV.subst]
+  · simp [nestedOkB, nestedPauli, nestedPauliCal, paramVarNames, exprFree, Expr.vars]
+
 /- FULL STATEMENT (false of the code):
      ∀ c m i, plainB i → c.identifier.target.isSome = m.target.isSome →
        measSubstCode c m i = measSubstSpec c m i -/
@@ -88,6 +145,15 @@ theorem measurement_substitution_faithful_partial (c : MCalDef) (m : Measurement
     (hm : c.identifier.target.isSome = m.target.isSome) :
     measSubstCode c m i = measSubstSpec c m i :=
   measSubstCode_eq c m i hp hc hm
+
+/-- **nested definitions admitted in measurement calibrations**: a plain instruction covered as above, or a
+nested definition whose unvisited positions do not mention the calibration's qubit variable and whose
+expressions do not refer to the formal target (`admitMB`). -/
+theorem measurement_substitution_faithful_admit_partial (c : MCalDef) (m : Measurement) (i : Instruction)
+    (h : admitMB (qubitVarNames [c.identifier.qubit]) c.identifier.target i = true)
+    (hm : c.identifier.target.isSome = m.target.isSome) :
+    measSubstCode c m i = measSubstSpec c m i :=
+  measSubstCode_eq_admit c m i h hm
 
 /-- the witness of the known finding: `DEFCAL MEASURE 0 addr: MOVE addr 1`, used for `MEASURE 0 ro[2]` -/
 def kfCal : MCalDef :=
@@ -124,7 +190,7 @@ theorem codeSubst_eq_specSubst (cals : Cals) (hcov : coveredB cals = true) :
   simp only [coveredB, Bool.and_eq_true, List.all_eq_true] at hcov
   constructor
   · rintro c g i ⟨k, _, hk⟩ hi
-    exact gateSubstCode_eq c g i (hcov.1 c (List.mem_of_getElem? hk) i hi)
+    exact gateSubstCode_eq_admit c g i (hcov.1 c (List.mem_of_getElem? hk) i hi)
   · rintro c m i ⟨k, ⟨c16, hc, hm, _⟩, hk⟩ hi
     have hci := hcov.2 c (List.mem_of_getElem? hk) i hi
     have : (toMCals16 cals.mcals)[k]? = some (toMCal16 c k) := by
@@ -134,7 +200,7 @@ theorem codeSubst_eq_specSubst (cals : Cals) (hcov : coveredB cals = true) :
     have htgt : c.identifier.target.isSome = m.target.isSome := by
       have := hm.2.1
       simpa [toMCal16, toMeas16] using this
-    exact measSubstCode_eq c m i hci.1 hci.2 htgt
+    exact measSubstCode_eq_admit c m i hci htgt
 
 /- FULL STATEMENT (false of the code, see the file header):
      expandInner E cals fuel prev i = .ok (some out) → Expands E specSubst cals [i] out -/
@@ -295,6 +361,57 @@ theorem fromInstructions_hoisted (is : List Instruction) : Hoisted (Prog.fromIns
   simp only [List.nil_append, List.mem_filter] at hi
   simpa using hi.2
 
+/-! ### "gives the same program with or without a source map", kind by kind
+
+`append_calibration_expansion_output_inner` has two branches: with a source map each instruction is added on its
+own and is recognised as hoisted by `start_length == end_length`; without, `add_instructions`.  (Seeded change
+C17-3 made the first branch recognise hoisting by KIND, `DECLARE` only, and push everything else into the body.) -/
+
+/-- **hoisting is decided by `add_instruction`'s routing, for every instruction kind**: the body length is
+unchanged by `add_instruction` exactly for DEFCAL, DEFCAL MEASURE, DEFCIRCUIT, DEFFRAME, DECLARE, DEFGATE,
+DEFWAVEFORM and `PRAGMA EXTERN` … -/
+theorem hoisted_iff_definition (p : Prog) (i : Instruction) :
+    (p.add i).instructions.length = p.instructions.length ↔ isDefinition i = true :=
+  add_hoists_iff p i
+
+/-- … each of which is then listed among the program's definitions (it is stored, not dropped) and leaves the
+body untouched … -/
+theorem definition_routed (p : Prog) (i : Instruction) (h : isDefinition i = true) :
+    i ∈ (p.add i).definitions ∧ (p.add i).instructions = p.instructions := by
+  refine ⟨add_definition_stored p i h, ?_⟩
+  rw [add_instructions, h]; simp
+
+/-- … while every other instruction is appended to the body and touches no definition. -/
+theorem nondefinition_routed (p : Prog) (i : Instruction) (h : isDefinition i = false) :
+    (p.add i).definitions = p.definitions ∧ (p.add i).instructions = p.instructions ++ [i] :=
+  add_nondefinition p i h
+
+/-- **both branches of `append_calibration_expansion_output_inner` build the same program**, for every
+program and every expansion output (any mixture of instruction kinds, any length) -/
+theorem append_with_map_eq_without (p : Prog) (out : List Instruction) (source : Nat) (entries : List Entry) :
+    (p.appendExpansion out source (some entries)).1 = (p.appendExpansion out source none).1 := by
+  rw [appendExpansion_fst, appendExpansion_fst]
+
+/-- the target indices the with-source-map branch removes from the expansion's detail are exactly the positions
+(among the instructions that land in the body) of the hoisted instructions, for every kind -/
+theorem with_map_removed_indices (p : Prog) (out : List Instruction) :
+    (Prog.appendLoop p.instructions.length p out []).2 = removedSpec 0 out := by
+  have := appendLoop_removed p.instructions.length out p [] (Nat.le_refl _)
+  simpa using this
+
+/-- the range the with-source-map branch records covers exactly the non-definitions of the output -/
+theorem with_map_range (p : Prog) (out : List Instruction) :
+    ((Prog.appendLoop p.instructions.length p out []).1).instructions.length =
+      p.instructions.length + (out.filter (fun i => !isDefinition i)).length := by
+  rw [appendLoop_fst, addMany_instructions]; simp
+
+/-- non-vacuity: `DECLARE`, `NOP`, `PRAGMA EXTERN`, `DEFFRAME`, `WAIT` — three kinds are hoisted, at relative
+positions 0, 1, 1 -/
+example : removedSpec 0 [.declaration ⟨"a", ⟨.bit, 1⟩, none⟩, .nop,
+    .pragma ⟨"EXTERN", [.identifier "f"], some "INTEGER"⟩,
+    .frameDefinition ⟨⟨"xy", [.fixed 0]⟩, []⟩, .wait] = [0, 1, 1] := by
+  simp [removedSpec, isDefinition]
+
 /-- **"gives the same program with or without a source map"** (any fuel, any outcome: the same expanded
 program, the same error, or both out of fuel) -/
 theorem with_map_eq_without (p : Prog) (fuel : Nat) :
@@ -368,6 +485,19 @@ example : coveredB { cals := [{ identifier := { modifiers := [], name := "X", pa
                                 instructions := [.fence { qubits := [.variable "q"] }, .nop] }],
                      mcals := [{ identifier := { name := none, qubit := .variable "q", target := some "addr" },
                                  instructions := [.fence { qubits := [.variable "q"] }] }] } = true := by
-  simp [coveredB, plainB, formalCoveredB, otherRefs]
+  simp [coveredB, admitB, admitMB, plainB, formalCoveredB, otherRefs]
+
+/-- … and by one with an admitted nested definition: `DEFCAL X q: DEFFRAME 0 "xy"; DEFCIRCUIT C: NOP` -/
+example : coveredB { cals := [{ identifier := { modifiers := [], name := "X", parameters := [], qubits := [.variable "q"] },
+                                instructions := [.frameDefinition ⟨⟨"xy", [.fixed 0]⟩, []⟩,
+                                                 .circuitDefinition "C" [] [] [.nop]] }],
+                     mcals := [] } = true := by
+  simp [coveredB, admitB, plainB, nestedOkB, qubitFree]
+
+/-- … and a measurement calibration with an admitted nested definition: `DEFCAL MEASURE q addr: DEFFRAME 0 "xy"` -/
+example : coveredB { cals := [],
+                     mcals := [{ identifier := { name := none, qubit := .variable "q", target := some "addr" },
+                                 instructions := [.frameDefinition ⟨⟨"xy", [.fixed 0]⟩, []⟩] }] } = true := by
+  simp [coveredB, admitMB, plainB, nestedOkB, qubitFree, nestedExprs]
 
 end QV.C17
